@@ -209,6 +209,12 @@ impl World {
 
     /// A world started from a fabricated sealed state at `height` holding a spread of coins.
     pub fn fabricated(seed: u64, net: NetID, height: u64, fee_multiplier: u128, fee_pool: u128) -> World {
+        World::fabricated_staked(seed, net, height, fee_multiplier, fee_pool, 0)
+    }
+
+    /// Like `fabricated`, with `n_stakes` pre-existing stakes (and their staked coins) whose ends fall in the
+    /// current epoch, the next one and later ones.
+    pub fn fabricated_staked(seed: u64, net: NetID, height: u64, fee_multiplier: u128, fee_pool: u128, n_stakes: usize) -> World {
         let mut rng = Rng::new(seed ^ 0xfab);
         let owners = make_owners(seed, 4);
         let db = new_db();
@@ -250,6 +256,22 @@ impl World {
             ));
             ids.push(id);
         }
+        let epoch = height / STAKE_EPOCH;
+        for i in 0..n_stakes {
+            let txhash = TxHash(tmelcrypt::hash_keyed(b"fabstake", (seed ^ i as u64).to_be_bytes()));
+            let (s, e) = match i % 4 {
+                0 => (epoch.saturating_sub(1), epoch),
+                1 => (epoch, epoch + 1),
+                2 => (epoch + 1, epoch + 3),
+                _ => (0, epoch + 2),
+            };
+            let v = 1_000_000 + (i as u128) * 7;
+            let owner = &owners[i % 4];
+            fab.stakes.push((txhash, StakeDoc { pubkey: owner.key.pk, e_start: s, e_post_end: e, syms_staked: CoinValue(v) }));
+            let id = CoinID { txhash, index: 0 };
+            fab.coins.push((id, CoinDataHeight { coin_data: CoinData { covhash: owner.addr_new, value: CoinValue(v), denom: Denom::Sym, additional_data: Bytes::new() }, height: BlockHeight(coin_h) }));
+            ids.push(id);
+        }
         let sealed = fab.build(&db);
         let cur = sealed.next_unsealed();
         let r2 = rng.fork(2);
@@ -275,14 +297,18 @@ impl World {
             NetID::Mainnet,
         ]);
         let mult = if r.chance(1, 2) { 0 } else { *r.pick(&FEE_MULTS[..6]) };
-        let pool = if r.chance(1, 2) { 0 } else { r.loguniform(70) };
+        let pool = match r.below(4) {
+            0 | 1 => 0,
+            2 => r.below(70_000) as u128,
+            _ => r.loguniform(70),
+        };
         if r.chance(1, 3) && net != NetID::Mainnet {
             let denom = if r.chance(3, 4) { Denom::Mel } else { Denom::Sym };
             World::from_genesis(seed, net, mult, pool, denom, 1u128 << 100)
         } else {
             let height = match net {
-                NetID::Mainnet => *r.pick(&[1_000_000u64, 1_047_998, 1_048_010, 1_199_998, 2_000_000, 978_400]),
-                NetID::Testnet => *r.pick(&[600u64, 1_000_000, 199_998, 2_000]),
+                NetID::Mainnet => *r.pick(&[1_000_000u64, 1_047_998, 1_048_010, 1_199_998, 2_000_000, 978_400, 940_000, 100_000]),
+                NetID::Testnet => *r.pick(&[600u64, 1_000_000, 199_998, 2_000, 10, 400]),
                 _ => *r.pick(&[1u64, 5, 199_997, 1_000, 950_010, 4_000_000]),
             };
             World::fabricated(seed, net, height, mult, pool)
@@ -1375,7 +1401,7 @@ impl World {
         let n = 1 + self.rng.usize(self.profile.max_batch);
         let dependent = self.rng.chance(self.profile.dependent_permille, 1000);
         let saved_utxo = self.utxo.clone();
-        let mut txs = vec![];
+        let mut txs: Vec<Transaction> = vec![];
         let mut labels = vec![];
         let height = self.height();
         let mut used: HashSet<CoinID> = HashSet::new();
@@ -1402,6 +1428,40 @@ impl World {
                 }
                 txs.push(tx);
                 labels.push(label);
+            }
+        }
+        // adversarial batch shapes around coins created inside the batch: a second spender of the same
+        // batch-created coin, or one transaction listing such a coin twice (and claiming its value twice)
+        if dependent && hostile_at.is_none() && self.rng.chance(1, 6) {
+            let hashes: HashMap<TxHash, usize> = txs.iter().enumerate().map(|(i, t)| (t.hash_nosigs(), i)).collect();
+            let children: Vec<usize> = (0..txs.len()).filter(|i| txs[*i].kind == TxKind::Normal && txs[*i].inputs.iter().any(|inp| hashes.contains_key(&inp.txhash))).collect();
+            if !children.is_empty() {
+                let ci = *self.rng.pick(&children);
+                let child = txs[ci].clone();
+                let inputs: Vec<(CoinID, CoinDataHeight)> = child.inputs.iter().filter_map(|i| self.utxo.get(i).or_else(|| saved_utxo.get(i)).map(|c| (*i, c.clone()))).collect();
+                if inputs.len() == child.inputs.len() {
+                    if self.rng.chance(1, 2) {
+                        let mut twin = child.clone();
+                        twin.data = Bytes::from(self.rng.bytes(4));
+                        self.sign(&mut twin, &inputs);
+                        txs.push(twin);
+                        labels.push("normal+hostile:second-spender-of-batch-created-coin".into());
+                    } else if let Some(pos) = child.inputs.iter().position(|inp| hashes.contains_key(&inp.txhash)) {
+                        let mut twin = child.clone();
+                        let dup = twin.inputs[pos];
+                        twin.inputs.push(dup);
+                        let (v, d) = (inputs[pos].1.coin_data.value, inputs[pos].1.coin_data.denom);
+                        let covhash = inputs[pos].1.coin_data.covhash;
+                        if v.0 <= MAX_COINVAL {
+                            twin.outputs.push(CoinData { covhash, value: v, denom: d, additional_data: Bytes::new() });
+                        }
+                        let mut ins2 = inputs.clone();
+                        ins2.push(inputs[pos].clone());
+                        self.sign(&mut twin, &ins2);
+                        txs[ci] = twin;
+                        labels[ci] = format!("{}+hostile:batch-created-coin-listed-twice", labels[ci]);
+                    }
+                }
             }
         }
         self.utxo = saved_utxo;
